@@ -242,6 +242,21 @@ def step (line : String) : String :=
     | ["tconn", journals, events, tags] => TConn.handle journals events tags impl
     | ["bb", ver, offset, declared, stream, ops] => BB.handle ver offset declared stream ops impl
     | ["dl", _, script] => DL.handle script impl
+    | ["f0", _, tag] =>
+      -- a Fetch whose record set ends with a cut-off tail, then a tagged request on the same pooled connection: the
+      -- fetch frame is consumed whole (`done ok` removes a frame), so the next frame is the next request's
+      match tag.toNat? with
+      | none => "bad-op"
+      | some t =>
+        match TransportConn.run [.new 1 1 1 [⟨2, 0⟩, ⟨3, t⟩], .recv 1 0, .done 1 .ok, .release 1 true, .grab 1, .recv 1 t, .done 1 .ok] with
+        | none => "model=reject holds=0"
+        | some s =>
+          let qres := match s.delivered.find? (·.tag == t) with
+            | some d => s!"ok:{d.frame.tag}"
+            | none => "err"
+          -- the broker is truthful and the exchange legal: the two whole batches (2 records) are delivered and the next
+          -- request gets its own answer
+          answer s!"F:ok:2,Q:{qres}" (impl == s!"F:ok:2,Q:ok:{t}")
     | ["a0", kind, tag] =>
       -- a request without response (produce, RequiredAcks = 0), then a tagged request to the same broker, as
       -- Model/TransportConn sees them: written whole → `done errKeep` (nothing is due, the conn is kept and serves the next
